@@ -27,6 +27,11 @@ theorem EntryList_MarshalPacked_is_model (es : List (Instant × GoVal)) :
   simp only [EntryList_MarshalPacked, runMP, marshalPacked]
   cases marshalEntries es <;> simp
 
+theorem EntryList_Equal_is_model {α : Type} [DecidableEq α] (l1 l2 : List α) :
+    runEQ l1 l2 EntryList_Equal {} = some (Equal.equal l1 l2) := by
+  simp only [EntryList_Equal, runEQ, Equal.equal]
+  by_cases h : l1.length = l2.length <;> simp [h]
+
 /-- the order matters: a buffer written before it is reset, or a body without the reset, is not a run -/
 example : runMP [] [.poolGet, .deferPut, .forEncode, .retCopy] {} = none := rfl
 
